@@ -52,6 +52,7 @@ inductive Obj where
 
 structure St where
   objs : Std.HashMap String Obj := {}
+  ws : List String := []        -- objects that sit under `WebSocketFramed` instead of `FramedRead`
 
 def hexOrDash (b : Bytes) : String := if b.isEmpty then "-" else hex b
 def unhexOrDash (s : String) : Option Bytes := if s == "-" then some [] else unhex s
@@ -364,6 +365,7 @@ def step (st : St) (toks : List String) : St × String :=
       ({ st with objs := st.objs.insert name (.vmc { c := c }) }, "ok")
     | _, _, _, _ => (st, "err")
   | "vm.server" :: name :: rest =>
+    let st := if kv rest "adapter" == some "ws" then { st with ws := name :: st.ws } else st
     match kv rest "users" with
     | some u =>
       let ids := (parseUsers u).map fun (_, p) => parseUuid p
@@ -377,6 +379,7 @@ def step (st : St) (toks : List String) : St × String :=
       ({ st with objs := st.objs.insert name (.tj { password := p.toUTF8.toList, client := true, udp := cmd == "udp", addr := some a }) }, "ok")
     | _, _, _ => (st, "bad-op")
   | "tj.server" :: name :: rest =>
+    let st := if kv rest "adapter" == some "ws" then { st with ws := name :: st.ws } else st
     match kv rest "password" with
     | some p => ({ st with objs := st.objs.insert name (.tj { password := p.toUTF8.toList, client := false }) }, "ok")
     | none => (st, "bad-op")
@@ -394,7 +397,8 @@ def step (st : St) (toks : List String) : St × String :=
       | some ctx => ({ st with objs := st.objs.insert name (.ssCtx { ctx := ctx }) }, "ok")
       | none => (st, "err")
     | _, _, _ => (st, "bad-op")
-  | ["ss.new", name, ctxName, addr] =>
+  | "ss.new" :: name :: ctxName :: addr :: extra =>
+    let st := if kv extra "adapter" == some "ws" then { st with ws := name :: st.ws } else st
     match st.objs.get? ctxName with
     | some (.ssCtx _) =>
       let a := if addr == "-" then none else parseAddr addr
@@ -525,20 +529,20 @@ def step (st : St) (toks : List String) : St × String :=
             let r := if o.udp then Trojan.clientDecodeUdp b else Trojan.clientDecodeTcp b
             ⟨s, r.buf, r.res⟩
           frEof call o.fr
-        else frEof (Trojan.serverDecode C o.password) o.fr
+        else if st.ws.contains name then wsEof o.fr else frEof (Trojan.serverDecode C o.password) o.fr
       ({ st with objs := st.objs.insert name (.tj { o with fr := fr' }) }, showEvents evs)
     | some (.vmc o) =>
       let call : Vmess.Client → Bytes → Call Vmess.Client := fun c b => Vmess.Client.decode C c b
       let (fr', evs) := frEof call { st := o.c, buf := o.fr.buf, ended := o.fr.ended }
       ({ st with objs := st.objs.insert name (.vmc { c := fr'.st, fr := { st := (), buf := fr'.buf, ended := fr'.ended } }) }, showEvents evs)
     | some (.vms o) =>
-      let (fr', evs) := frEof (vmCall 0) o.fr
+      let (fr', evs) := if st.ws.contains name then wsEof o.fr else frEof (vmCall 0) o.fr
       ({ st with objs := st.objs.insert name (.vms { o with fr := fr' }) }, showEvents evs)
     | some (.ss o) =>
       match st.objs.get? o.ctxName with
       | some (.ssCtx co) =>
         let env : Ss.DecEnv := { now := 0, saltSeen := fun _ => false }
-        let (fr', evs) := frEof (ssCall co.ctx env) o.fr
+        let (fr', evs) := if st.ws.contains name then wsEof o.fr else frEof (ssCall co.ctx env) o.fr
         ({ st with objs := st.objs.insert name (.ss { o with fr := fr' }) }, showEvents evs)
       | _ => (st, "bad-op")
     | _ => (st, "bad-op")
